@@ -1318,9 +1318,178 @@ def r25_vec_extend(toks, counts):
     return out
 
 
+def _tail_blocks(toks, b_open, b_close):
+    """the block itself plus, recursively, the branch blocks of an if/else chain that is its last statement"""
+    out = [(b_open, b_close)]
+    j = b_open + 1
+    last_if = None
+    while j < b_close:
+        t = toks[j]
+        if t[0] in TRIVIA:
+            j += 1
+            continue
+        if is_id(t, 'if'):
+            branches = []
+            k = j
+            while True:
+                b = k + 1
+                while b < b_close and not is_p(toks[b], '{'):
+                    if toks[b][0] == 'p' and toks[b][1] in '([':
+                        b = match_close(toks, b)
+                    b += 1
+                if b >= b_close:
+                    break
+                bc = match_close(toks, b)
+                branches.append((b, bc))
+                nx = next_sig(toks, bc + 1)
+                if nx < b_close and is_id(toks[nx], 'else'):
+                    n2 = next_sig(toks, nx + 1)
+                    if n2 < b_close and is_id(toks[n2], 'if'):
+                        k = n2
+                        continue
+                    if n2 < b_close and is_p(toks[n2], '{'):
+                        bc2 = match_close(toks, n2)
+                        branches.append((n2, bc2))
+                        bc = bc2
+                break
+            endj = branches[-1][1] if branches else j
+            if next_sig(toks, endj + 1) >= b_close:
+                last_if = branches
+            j = endj + 1
+            continue
+        if t[0] == 'p' and t[1] in rtok.OPEN:
+            j = match_close(toks, j) + 1
+            continue
+        j += 1
+    if last_if:
+        for (bo, bc) in last_if:
+            out += _tail_blocks(toks, bo, bc)
+    return out
+
+
+def _rewrite_continue_in_block(toks, body_open, body_close, counts):
+    """one rewrite inside the block (body_open, body_close), or None"""
+    j = body_open + 1
+    while j < body_close:
+        t = toks[j]
+        if t[0] in TRIVIA:
+            j += 1
+            continue
+        if is_id(t, 'if'):
+            b = j + 1
+            while b < body_close and not is_p(toks[b], '{'):
+                if toks[b][0] == 'p' and toks[b][1] in '([':
+                    b = match_close(toks, b)
+                b += 1
+            bc = match_close(toks, b)
+            nx = next_sig(toks, bc + 1)
+            has_else = nx < body_close and is_id(toks[nx], 'else')
+            last = prev_sig(toks, bc - 1)
+            if not has_else and is_p(toks[last], ';'):
+                c = prev_sig(toks, last - 1)
+                if is_id(toks[c], 'continue'):
+                    ind = _line_indent(toks, j)
+                    rest = toks[bc + 1:body_close]
+                    cut_from = c
+                    while cut_from - 1 > b and toks[cut_from - 1][0] == 'ws':
+                        cut_from -= 1
+                    head = toks[:cut_from] + [('ws', '\n' + ind)] + [toks[bc]]
+                    rest_sig = [x for x in rest if x[0] not in TRIVIA]
+                    if rest_sig:
+                        new_rest = []
+                        for x in rest:
+                            if x[0] == 'ws' and '\n' in x[1]:
+                                new_rest.append(('ws', x[1] + '    '))
+                            else:
+                                new_rest.append(x)
+                        while new_rest and new_rest[-1][0] == 'ws':
+                            new_rest.pop()
+                        tail = [('ws', ' '), ('id', 'else'), ('ws', ' '), ('p', '{')] + new_rest + [('ws', '\n' + ind), ('p', '}')]
+                    else:
+                        tail = []
+                    close_ws = []
+                    q = body_close - 1
+                    while q >= 0 and toks[q][0] == 'ws':
+                        close_ws.insert(0, toks[q])
+                        q -= 1
+                    counts['R10'] = counts.get('R10', 0) + 1
+                    return head + tail + close_ws + toks[body_close:]
+            j = bc + 1
+            if has_else:
+                e = nx + 1
+                while e < body_close and not is_p(toks[e], '{'):
+                    e += 1
+                j = match_close(toks, e) + 1 if e < body_close else body_close
+                # else-if chains: keep skipping
+                while True:
+                    nx2 = next_sig(toks, j)
+                    if nx2 < body_close and is_id(toks[nx2], 'else'):
+                        e = nx2 + 1
+                        while e < body_close and not is_p(toks[e], '{'):
+                            e += 1
+                        j = match_close(toks, e) + 1 if e < body_close else body_close
+                        continue
+                    break
+            continue
+        if is_id(t, 'let'):
+            e = j + 1
+            else_at = None
+            while e < body_close and not is_p(toks[e], ';'):
+                if toks[e][0] == 'p' and toks[e][1] in rtok.OPEN:
+                    e = match_close(toks, e)
+                elif is_id(toks[e], 'else'):
+                    else_at = e
+                    break
+                e += 1
+            if else_at is not None:
+                b = next_sig(toks, else_at + 1)
+                if b < body_close and is_p(toks[b], '{'):
+                    bc = match_close(toks, b)
+                    semi = next_sig(toks, bc + 1)
+                    last = prev_sig(toks, bc - 1)
+                    c = prev_sig(toks, last - 1) if is_p(toks[last], ';') else -1
+                    if semi < body_close and is_p(toks[semi], ';') and c > b and is_id(toks[c], 'continue'):
+                        ind = _line_indent(toks, j)
+                        head_pat = toks[j + 1:else_at]
+                        while head_pat and head_pat[-1][0] == 'ws':
+                            head_pat.pop()
+                        else_body = toks[b + 1:c]
+                        while else_body and else_body[-1][0] == 'ws':
+                            else_body.pop()
+                        rest = toks[semi + 1:body_close]
+                        new_rest = []
+                        for x in rest:
+                            if x[0] == 'ws' and '\n' in x[1]:
+                                new_rest.append(('ws', x[1] + '    '))
+                            else:
+                                new_rest.append(x)
+                        while new_rest and new_rest[-1][0] == 'ws':
+                            new_rest.pop()
+                        close_ws = []
+                        q = body_close - 1
+                        while q >= 0 and toks[q][0] == 'ws':
+                            close_ws.insert(0, toks[q])
+                            q -= 1
+                        counts['R10'] = counts.get('R10', 0) + 1
+                        return toks[:j] + [('id', 'if'), ('ws', ' '), ('id', 'let')] + head_pat + [('ws', ' '), ('p', '{')] \
+                            + new_rest + [('ws', '\n' + ind), ('p', '}'), ('ws', ' '), ('id', 'else'), ('ws', ' '), ('p', '{')] \
+                            + else_body + [('ws', '\n' + ind), ('p', '}')] + close_ws + toks[body_close:]
+                    j = bc + 1
+                    continue
+            j = e + 1
+            continue
+        if t[0] == 'p' and t[1] in rtok.OPEN:
+            j = match_close(toks, j) + 1
+            continue
+        j += 1
+    return None
+
+
 def r10b_if_continue(toks, counts):
-    """inside a `for` body: `if C { S; continue; } REST` -> `if C { S } else { REST }` (Verus has no `continue` in for-loops).
-    Only when the `if` is a direct statement of the loop body, has no `else`, and `continue;` is its last statement."""
+    """inside a `for` body (and, recursively, in branch blocks in tail position of it):
+       `if C { S; continue; } REST`            -> `if C { S } else { REST }`
+       `let P = E else { S; continue; }; REST` -> `if let P = E { REST } else { S }`
+    (Verus has no `continue` in for-loops).  The `if` must have no `else`, and `continue;` must be the last statement."""
     changed = True
     while changed:
         changed = False
@@ -1337,70 +1506,12 @@ def r10b_if_continue(toks, counts):
                         saw_in = True
                     k += 1
                 if saw_in and k < n:
-                    body_open = k
-                    body_close = match_close(toks, k)
-                    # direct statements of the body
-                    j = body_open + 1
-                    while j < body_close:
-                        t = toks[j]
-                        if t[0] in TRIVIA:
-                            j += 1
-                            continue
-                        if is_id(t, 'if'):
-                            b = j + 1
-                            while b < body_close and not is_p(toks[b], '{'):
-                                if toks[b][0] == 'p' and toks[b][1] in '([':
-                                    b = match_close(toks, b)
-                                b += 1
-                            bc = match_close(toks, b)
-                            nx = next_sig(toks, bc + 1)
-                            has_else = nx < body_close and is_id(toks[nx], 'else')
-                            # last statement inside the if-block
-                            last = prev_sig(toks, bc - 1)
-                            if not has_else and is_p(toks[last], ';'):
-                                c = prev_sig(toks, last - 1)
-                                if is_id(toks[c], 'continue'):
-                                    ind = _line_indent(toks, j)
-                                    rest = toks[bc + 1:body_close]
-                                    # drop `continue;` (and the whitespace before it)
-                                    cut_from = c
-                                    while cut_from - 1 > b and toks[cut_from - 1][0] == 'ws':
-                                        cut_from -= 1
-                                    head = toks[:cut_from] + [('ws', '\n' + ind)] + [toks[bc]]
-                                    rest_sig = [x for x in rest if x[0] not in TRIVIA]
-                                    if rest_sig:
-                                        new_rest = []
-                                        for x in rest:
-                                            if x[0] == 'ws' and '\n' in x[1]:
-                                                new_rest.append(('ws', x[1] + '    '))
-                                            else:
-                                                new_rest.append(x)
-                                        while new_rest and new_rest[-1][0] == 'ws':
-                                            new_rest.pop()
-                                        tail = [('ws', ' '), ('id', 'else'), ('ws', ' '), ('p', '{')] + new_rest + [('ws', '\n' + ind), ('p', '}')]
-                                    else:
-                                        tail = []
-                                    close_ws = []
-                                    q = body_close - 1
-                                    while q >= 0 and toks[q][0] == 'ws':
-                                        close_ws.insert(0, toks[q])
-                                        q -= 1
-                                    toks = head + tail + close_ws + toks[body_close:]
-                                    counts['R10'] = counts.get('R10', 0) + 1
-                                    changed = True
-                                    break
-                            j = bc + 1
-                            if has_else:
-                                # skip the else chain
-                                e = nx + 1
-                                while e < body_close and not is_p(toks[e], '{'):
-                                    e += 1
-                                j = match_close(toks, e) + 1 if e < body_close else body_close
-                            continue
-                        if t[0] == 'p' and t[1] in rtok.OPEN:
-                            j = match_close(toks, j) + 1
-                            continue
-                        j += 1
+                    for (bo, bc) in _tail_blocks(toks, k, match_close(toks, k)):
+                        new = _rewrite_continue_in_block(toks, bo, bc, counts)
+                        if new is not None:
+                            toks = new
+                            changed = True
+                            break
             i += 1
     return toks
 
